@@ -14,8 +14,10 @@ pub const REPLY_ACTIONS: [&str; 8] = [
     "insurance_withdraw",
 ];
 
-/// engine reply path taken by a successful transaction, read from the events
-pub fn reply_path(w: &World, out: &TxOut) -> String {
+/// engine reply path taken by a successful transaction as named by the engine's own `action` attributes. Kept only as
+/// a cross-check of `classify_path` (counter `path-label-differs-from-event-names` in C02's report); verdicts and
+/// signatures use the effect-based classification, so renaming an event attribute cannot change a verdict.
+pub fn reply_path_from_events(w: &World, out: &TxOut) -> String {
     let e = w.engine.to_string();
     let i = w.insurance.to_string();
     let mut v = vec![];
@@ -36,6 +38,66 @@ pub fn reply_path(w: &World, out: &TxOut) -> String {
     }
 }
 
+/// engine path of a transaction, classified from what it observably did: which message was sent, which swaps the
+/// vAMM executed for it (kind and order), whether the position it is about still exists afterwards, and how many
+/// times collateral moved from the insurance fund to the engine. The labels are those of the engine's reply handlers.
+pub fn classify_path(w: &World, op: &Op, _pre: &Snap, post: &Snap, out: &TxOut) -> String {
+    if !out.ok {
+        return "-".to_string();
+    }
+    let mut v: Vec<&str> = vec![];
+    if let Op::Engine { sender, msg, .. } = op {
+        let swaps = swap_events(w, out);
+        let kinds: Vec<bool> = swaps.iter().map(|s| s.input).collect(); // true = swap by quote (input), false = by base (output)
+        match msg {
+            eng::ExecuteMsg::OpenPosition { .. } => match kinds.as_slice() {
+                [true] => v.push("update_position"),
+                [false] => v.push("reverse_position"),
+                [false, true] => {
+                    v.push("reverse_position");
+                    v.push("update_position");
+                }
+                _ => {}
+            },
+            eng::ExecuteMsg::ClosePosition { .. } => match kinds.as_slice() {
+                [false] => v.push("close_position"),
+                [true] => v.push("partial_close_position"),
+                _ => {}
+            },
+            eng::ExecuteMsg::Liquidate { vamm, trader, .. } => {
+                if kinds.len() == 1 {
+                    let gone = w.vamm_idx(vamm.trim()).map(|vi| post.pos(vi, trader.trim()).is_none()).unwrap_or(true);
+                    v.push(if gone { "liquidation" } else { "partial_liquidation" });
+                }
+            }
+            eng::ExecuteMsg::PayFunding { .. } => v.push("pay_funding"),
+            _ => {}
+        }
+        let _ = sender;
+        let ins = w.insurance.to_string();
+        let e = w.engine.to_string();
+        for t in &out.transfers {
+            if t.from == ins && t.to == e {
+                v.push("insurance_withdraw");
+            }
+        }
+    }
+    if v.is_empty() {
+        "-".to_string()
+    } else {
+        v.join("+")
+    }
+}
+
+/// the path recorded with the step (effect-based); falls back to the event names for outcomes that were not recorded
+/// through the history driver
+pub fn reply_path(w: &World, out: &TxOut) -> String {
+    match &out.path {
+        Some(p) => p.clone(),
+        None => reply_path_from_events(w, out),
+    }
+}
+
 #[derive(Clone, Debug)]
 pub struct SwapEv {
     pub vamm: usize,
@@ -47,10 +109,24 @@ pub struct SwapEv {
     pub b_after: u128,
 }
 
+impl SwapEv {
+    /// reserves after this swap, computed from the reserves before it and the exchanged amounts (an input swap in
+    /// direction add, or an output swap in direction remove, adds quote and removes base; the other two the reverse)
+    pub fn after(&self, q0: u128, b0: u128) -> (u128, u128) {
+        if self.input == self.add {
+            (q0.saturating_add(self.quote), b0.saturating_sub(self.base))
+        } else {
+            (q0.saturating_sub(self.quote), b0.saturating_add(self.base))
+        }
+    }
+}
+
 pub fn swap_events(w: &World, out: &TxOut) -> Vec<SwapEv> {
     let mut v = vec![];
     for ev in &out.events {
-        if ev.ty != "wasm" || attr(ev, "action") != Some("swap") {
+        // a swap report of a vAMM is recognised by the attributes the margin engine itself parses (type, quote and base
+        // amount), not by its `action` label
+        if ev.ty != "wasm" || !matches!(attr(ev, "type"), Some("input") | Some("output")) || attr_u128(ev, "quote_asset_amount").is_none() || attr_u128(ev, "base_asset_amount").is_none() {
             continue;
         }
         let Some(idx) = attr(ev, "_contract_addr").and_then(|a| w.vamm_idx(a)) else { continue };
